@@ -311,6 +311,9 @@ func (s *ModelServer) sessionLoop(se *Session) {
 	}
 }
 
+// SendTo writes a message on the session's control connection.
+func (s *ModelServer) SendTo(se *Session, m msg.Message) error { return msg.WriteMsg(se.rw, m) }
+
 // ReleaseLate sends every held NewProxyResp.
 func (s *ModelServer) ReleaseLate() {
 	l := s.late
